@@ -13,7 +13,7 @@
 (***************************************************************************)
 EXTENDS Naturals, Integers, Sequences, FiniteSets, TLC, Json, IOUtils
 
-VARIABLES l, H        \* H: history sums [moved, charged (per vehicle), adds, cancels, nmove, ncharge]
+VARIABLES l, H, Hs    \* H: history sums [moved, charged (per vehicle), adds, cancels, nmove, ncharge]; Hs: HiveStats history
 TLog == ndJsonDeserialize(IOEnv.TRACE_FILE)
 
 V(p, c, sig, w) == <<p, c, sig, w>>
@@ -92,8 +92,9 @@ HNext(Hh, e) ==
 
 \* the time-step statistics rows (spec/HiveStats.tla): mismatches are conformance divergences, never verdicts
 ST == INSTANCE HiveStats
-StatsDivg(e) ==
+StatsDivg(Hh, Hst, e) ==
   IF e.k = "stats" THEN ST!RowOK(e)
+  ELSE IF e.k = "final" THEN ST!SummaryOK(Hst, Hh.adds, Hh.cancels, e)
   ELSE IF e.k = "stats_abort" THEN {<<"Stats", "handler_raised", e.error, e.n>>}
   ELSE IF e.k = "stats_file" THEN {<<"Stats", "file_reads_back", e.what, e.rows>>}
   ELSE {}
@@ -105,14 +106,15 @@ Merge(reg, vs, ln) ==
      IF k \in DOMAIN reg THEN (IF k \in keys THEN [reg[k] EXCEPT !.n = @ + 1] ELSE reg[k])
      ELSE [line |-> ln, w |-> (CHOOSE v \in vs : Key(v) = k)[4], n |-> 1]]
 
-TraceInit == l = 1 /\ H = H0 /\ TLCSet(1, <<>>) /\ TLCSet(2, <<>>) /\ TLCSet(3, {}) /\ TLCSet(4, 0)
+TraceInit == l = 1 /\ H = H0 /\ Hs = ST!Hs0 /\ TLCSet(1, <<>>) /\ TLCSet(2, <<>>) /\ TLCSet(3, {}) /\ TLCSet(4, 0)
 TraceNext ==
   /\ l <= Len(TLog)
   /\ LET e == TLog[l]
          vs == IF e.k = "step" THEN StepOK(e) ELSE IF e.k = "final" THEN FinalOK(H, e) ELSE {}
      IN /\ H' = IF e.k = "start" THEN H0 ELSE IF e.k = "step" THEN HNext(H, e) ELSE H
+        /\ Hs' = IF e.k = "start" THEN ST!Hs0 ELSE ST!HsNext(Hs, e)
         /\ IF vs = {} THEN TRUE ELSE TLCSet(1, Merge(TLCGet(1), vs, l))
-        /\ LET ds == StatsDivg(e) IN IF ds = {} THEN TRUE ELSE TLCSet(2, Merge(TLCGet(2), ds, l))
+        /\ LET ds == StatsDivg(H, Hs, e) IN IF ds = {} THEN TRUE ELSE TLCSet(2, Merge(TLCGet(2), ds, l))
         /\ TLCSet(3, TLCGet(3) \cup (IF e.k = "step" THEN {<<"events", x, "", "">> : x \in
               (IF e.log.pickups # <<>> THEN {"pickup"} ELSE {}) \cup (IF e.log.charges # <<>> THEN {"charge"} ELSE {})
               \cup (IF e.log.cancels # <<>> THEN {"cancel"} ELSE {}) \cup (IF e.log.moves # <<>> THEN {"move"} ELSE {})
@@ -121,7 +123,7 @@ TraceNext ==
               ELSE {<<e.k, "", "", "">>}))
         /\ TLCSet(4, l)
   /\ l' = l + 1
-TraceSpec == TraceInit /\ [][TraceNext]_<<l, H>>
+TraceSpec == TraceInit /\ [][TraceNext]_<<l, H, Hs>>
 
 RegToSet(reg) == {[p |-> k[1], c |-> k[2], s |-> k[3], line |-> reg[k].line, w |-> reg[k].w, n |-> reg[k].n] : k \in DOMAIN reg}
 Done ==
